@@ -1,5 +1,5 @@
 (* C13 — output depends only on data directory and options, never on scheduling or reruns (partial: runtime not modelled). Pinned statements only: each theorem is closed by `exact` of a lemma proved in theories/. *)
-From RBP Require Import Bytes Model Misc Hashes Base58 Utf8 Wire Block Render ScriptCustom CustomTop ScriptBtc Index ParP HistoryP.
+From RBP Require Import Bytes Model Misc Hashes Base58 Utf8 Wire Block Render ScriptCustom CustomTop ScriptBtc Index ParP HistoryP BalanceP.
 From RBP Require Drive Merkle Utxo Stats OutProto Reader Published Misc.
 
 Theorem C13_indexed_collect_any_order :
@@ -38,6 +38,10 @@ Theorem C13_later_run_wins :
   forall (cap : nat) (L : N) (ws : list OutProto.wr) (rows1 rows2 : list (nat * bytes)) (tr1 : list OutProto.osop) (e1 : OutProto.exitcode) (tr2 : list OutProto.osop) (s : OutProto.fs), (0 < cap)%nat -> OutProto.run cap L ws rows1 = (tr1, e1) -> OutProto.run cap L ws rows2 = (tr2, 0) -> NoDup (OutProto.tmps ws ++ OutProto.finals ws) -> OutProto.fresh_writers ws -> (forall r : nat * bytes, In r rows2 -> (fst r < length ws)%nat) -> forall j : nat, (j < length ws)%nat -> OutProto.fs_get (nth j (OutProto.finals ws) 0) (OutProto.apply_trace (OutProto.apply_trace s tr1) tr2) = Some (OutProto.data_for j rows2).
 Proof. exact later_run_wins. Qed.
 
+Theorem C13_balances_any_iteration_order :
+  forall (m m' : list (bytes * uval)) (a : list N), Permutation.Permutation m m' -> Utxo.bal_lookup (list N) beqb a (balances_final m) = Utxo.bal_lookup (list N) beqb a (balances_final m').
+Proof. exact balances_any_iteration_order. Qed.
+
 Print Assumptions C13_indexed_collect_any_order.
 Print Assumptions C13_prestate_independent.
 Print Assumptions C13_failure_touches_no_final.
@@ -47,3 +51,4 @@ Print Assumptions C13_block_in_any_nested_order.
 Print Assumptions C13_success_after_any_history.
 Print Assumptions C13_same_result_in_any_two_folders.
 Print Assumptions C13_later_run_wins.
+Print Assumptions C13_balances_any_iteration_order.
